@@ -170,3 +170,34 @@ fn wakeup_and_stop_are_prompt_while_a_timer_bounds_the_wait() {
     th.join().unwrap();
     assert_eq!(n, 0, "the 3 s timer fired early");
 }
+
+/// a wake-up issued between the return of a woken wait and the start of the next wait is not lost
+#[test]
+fn a_wakeup_issued_between_two_waits_cuts_the_next_one_short() {
+    let mut el: EventLoop<u32> = EventLoop::try_new().unwrap();
+    for _round in 0..3 {
+        // W1 ends a blocked wait
+        let sig = el.get_signal();
+        let th = std::thread::spawn(move || { std::thread::sleep(Duration::from_millis(50)); sig.wakeup(); });
+        let mut n = 0;
+        el.dispatch(None, &mut n).unwrap();
+        th.join().unwrap();
+        // W2 is issued while no wait is in progress: the NEXT wait must return promptly
+        el.get_signal().wakeup();
+        let t = Instant::now();
+        el.dispatch(Duration::from_secs(3), &mut n).unwrap();
+        assert!(t.elapsed() < Duration::from_secs(1), "a wakeup() issued between two waits was lost ({:?})", t.elapsed());
+    }
+    // the same from the per-iteration closure of run()
+    let sig = el.get_signal();
+    let th = std::thread::spawn({ let sig = sig.clone(); move || { std::thread::sleep(Duration::from_millis(50)); sig.wakeup(); } });
+    let mut iterations = 0u32;
+    let t = Instant::now();
+    el.run(Duration::from_secs(3), &mut iterations, |it| {
+        *it += 1;
+        if *it == 1 { sig.wakeup(); }           // woken iteration asks for another prompt one
+        if *it == 2 { sig.stop(); sig.wakeup(); }
+    }).unwrap();
+    th.join().unwrap();
+    assert!(t.elapsed() < Duration::from_secs(2), "run() slept through a wakeup() issued from a woken iteration ({:?})", t.elapsed());
+}
